@@ -303,8 +303,10 @@ func tryNormalForms(id, tier, repo string, rep *Report, known *KnownFile) (*Repo
 		}
 		// ... and so is a complaint about what a helper named further on in the construct does ("string handed to
 		// printing helper #1 (writeDescText)"): with the helper inlined the complaint has nothing to attach to
+		// (a value the helper returns - "coerceArgIn()#0", "findOp()" - is another matter: inlined, the value is
+		// judged where it is computed)
 		for _, fn := range rep.c.allFns {
-			if fn.Parent() == nil && wordIn(o.Key, fn.Name()) {
+			if fn.Parent() == nil && strings.Contains(o.Key, "("+fn.Name()+")") {
 				anch[fn.Name()] = true
 			}
 		}
